@@ -13,12 +13,14 @@ import (
 	"io"
 	stdlog "log"
 	"net"
-	"os"
+	_ "os"
 	"runtime"
 	"sort"
 	"strings"
 	"sync"
 	"sync/atomic"
+	"syscall"
+	"unsafe"
 	"time"
 
 	"github.com/sirupsen/logrus"
@@ -27,6 +29,7 @@ import (
 	"github.com/free5gc/go-upf/internal/logger"
 	"github.com/free5gc/go-upf/internal/report"
 	"github.com/free5gc/go-upf/internal/verif/deepdump"
+	"github.com/free5gc/go-upf/internal/verif/gstate"
 	"github.com/free5gc/go-upf/pkg/factory"
 )
 
@@ -72,6 +75,7 @@ type VServer struct {
 	fatal0 int64
 	buf    []byte
 	gid    string // goroutine id of the event loop
+	rgid   string // goroutine id of the receiver
 }
 
 // VStart creates and starts a server and waits until its loop is serving.
@@ -171,16 +175,19 @@ func (v *VServer) Quiesce() (alive bool, state string) {
 				return true, st
 			}
 			if st == "gone" {
-				if !v.Fatal() && os.Getenv("VERIF_DEBUG") != "" {
-					fmt.Fprintf(os.Stderr, "DEBUG loop gone without fatal:\n%s\n", v.VGoroutines())
-				}
 				return false, st
 			}
 			if time.Now().After(dl) {
 				return true, "stuck:" + st
 			}
-		} else if time.Now().After(dl) {
-			return true, "stuck:queues"
+		} else {
+			// events are queued: either the loop is about to take them, or it no longer exists
+			if spins%64 == 63 && v.loopState() == "gone" {
+				return false, "gone"
+			}
+			if time.Now().After(dl) {
+				return true, "stuck:queues"
+			}
 		}
 		spins++
 		if spins < 200 {
@@ -189,6 +196,111 @@ func (v *VServer) Quiesce() (alive bool, state string) {
 			time.Sleep(20 * time.Microsecond)
 		}
 	}
+}
+
+// pendingDatagrams: octets waiting in the server socket's receive queue (0 = nothing queued).
+func (v *VServer) pendingDatagrams() int {
+	if v.S.conn == nil {
+		return 0
+	}
+	rc, err := v.S.conn.SyscallConn()
+	if err != nil {
+		return 0
+	}
+	n := 0
+	_ = rc.Control(func(fd uintptr) {
+		n, _ = unixIoctlGetInt(int(fd), 0x541B) // FIONREAD / SIOCINQ
+	})
+	return n
+}
+
+// QuiesceUDP is Quiesce for datagrams sent to the real socket: additionally the socket's receive queue is
+// empty and the receiver goroutine is parked in its read.
+func (v *VServer) QuiesceUDP() (alive bool, state string) {
+	dl := time.Now().Add(60 * time.Second)
+	for {
+		if v.pendingDatagrams() == 0 {
+			d := gstate.Dump()
+			if v.rgid == "" {
+				id, _ := gstate.Find(d, "pfcp.(*PfcpServer).receiver(")
+				v.rgid = id
+			}
+			rst := "gone"
+			if v.rgid != "" {
+				rst = gstate.StateOf(d, v.rgid)
+			}
+			if rst == "IO wait" || rst == "gone" {
+				alive, st := v.Quiesce()
+				if !alive || strings.HasPrefix(st, "stuck") {
+					return alive, st
+				}
+				if v.pendingDatagrams() == 0 {
+					if rst == "gone" {
+						return true, "receiver-gone"
+					}
+					if gstate.StateOf(gstate.Dump(), v.rgid) == "IO wait" && v.IdleNow() {
+						return true, st
+					}
+				}
+			}
+		}
+		if time.Now().After(dl) {
+			return true, "stuck:udp"
+		}
+		runtime.Gosched()
+	}
+}
+
+func unixIoctlGetInt(fd int, req uint) (int, error) {
+	var v int32
+	_, _, e := syscall.Syscall(syscall.SYS_IOCTL, uintptr(fd), uintptr(req), uintptr(unsafe.Pointer(&v)))
+	if e != 0 {
+		return 0, e
+	}
+	return int(v), nil
+}
+
+// RuleTokens lists nodes, sessions and their rule ids as tokens ("n:<id>", "s:<seid>", "s:<seid>:F1", ...).
+func (v *VServer) RuleTokens() (tokens map[string]bool, sessions int) {
+	tokens = map[string]bool{}
+	for id := range v.S.rnodes {
+		tokens["n:"+id] = true
+	}
+	for i, s := range v.S.lnode.sess {
+		if s == nil {
+			continue
+		}
+		sessions++
+		_ = i
+		owner := "?"
+		if s.rnode != nil {
+			owner = s.rnode.ID
+		}
+		p := fmt.Sprintf("s:%s/%#x", owner, s.RemoteID) // by owner and CP SEID: the SEID value may change when the state is rebuilt
+		tokens[p] = true
+		for id := range s.PDRIDs {
+			tokens[fmt.Sprintf("%s:P%d", p, id)] = true
+		}
+		for id := range s.FARIDs {
+			tokens[fmt.Sprintf("%s:F%d", p, id)] = true
+		}
+		for id := range s.QERIDs {
+			tokens[fmt.Sprintf("%s:Q%d", p, id)] = true
+		}
+		for id := range s.URRIDs {
+			tokens[fmt.Sprintf("%s:U%d", p, id)] = true
+		}
+		for id := range s.BARIDs {
+			tokens[fmt.Sprintf("%s:B%d", p, id)] = true
+		}
+		for id, q := range s.q {
+			if len(q) > 0 {
+				tokens[fmt.Sprintf("%s:q%d", p, id)] = true
+			}
+		}
+	}
+	tokens[fmt.Sprintf("tx:%v", len(v.S.txTrans) > 0)] = true
+	return
 }
 
 // IdleNow: queues empty and the loop parked in its select at this instant.
@@ -321,6 +433,7 @@ func h8(b []byte) string {
 // SessDump is the canonical dump of one session (all fields a property can observe).
 func sessDump(s *Sess, lab func(uint64) string, noSeq ...bool) string {
 	qLenOnly := len(noSeq) > 1 && noSeq[1]
+	idsOnly := len(noSeq) > 2 && noSeq[2]
 	var sb strings.Builder
 	node := "?"
 	if s.rnode != nil {
@@ -362,6 +475,9 @@ func sessDump(s *Sess, lab func(uint64) string, noSeq ...bool) string {
 		u := s.URRIDs[uint32(id)]
 		if len(noSeq) > 0 && noSeq[0] {
 			u = &URRInfo{removed: u.removed, MeasureMethod: u.MeasureMethod, MeasureInformation: u.MeasureInformation, refPdrNum: u.refPdrNum}
+		}
+		if idsOnly {
+			u = &URRInfo{}
 		}
 		fmt.Fprintf(&sb, "%d:{rm=%v seq=%d ref=%d m=%v%v%v i=%v%v%v%v%v} ", id, u.removed, u.SEQN, u.refPdrNum,
 			b2i(u.DURAT), b2i(u.VOLUM), b2i(u.EVENT), b2i(u.MBQE), b2i(u.INAM), b2i(u.RADI), b2i(u.ISTM), b2i(u.MNOP))
@@ -444,6 +560,8 @@ type DumpOpt struct {
 	Label func(uint64) string
 	NoSeq bool // leave out the per-URR UR-SEQN counters (properties that cannot observe them)
 	QLenOnly bool // queues by length only (payload names are a renaming)
+	IDsOnly  bool // sessions by their rule-id sets only (no per-URR details)
+	NoExtra  bool // skip the reflective unknown-field dump (sweeps that compare thousands of states with large transaction tables)
 }
 
 func rawLabel(x uint64) string { return fmt.Sprintf("%#x", x) }
@@ -475,7 +593,7 @@ func (v *VServer) Dump(o DumpOpt) string {
 			if x == nil {
 				fmt.Fprintf(&sb, "slot %d nil\n", i+1)
 			} else {
-				fmt.Fprintf(&sb, "slot %d %s\n", i+1, sessDump(x, lab, o.NoSeq, o.QLenOnly))
+				fmt.Fprintf(&sb, "slot %d %s\n", i+1, sessDump(x, lab, o.NoSeq, o.QLenOnly, o.IDsOnly))
 			}
 		}
 	} else {
@@ -491,7 +609,7 @@ func (v *VServer) Dump(o DumpOpt) string {
 		var ds []string
 		for i, x := range s.lnode.sess {
 			if x != nil {
-				d := sessDump(x, lab, o.NoSeq, o.QLenOnly)
+				d := sessDump(x, lab, o.NoSeq, o.QLenOnly, o.IDsOnly)
 				if x.LocalID != uint64(i+1) {
 					d += fmt.Sprintf(" MISPLACED(slot %d holds LocalID %#x)", i+1, x.LocalID)
 				}
@@ -504,7 +622,8 @@ func (v *VServer) Dump(o DumpOpt) string {
 		}
 	}
 	// state the hand-written dump does not know (fields added by a change to the implementation)
-	if x := deepdump.Extra(s, knownFields); x != "" {
+	if o.NoExtra {
+	} else if x := deepdump.Extra(s, knownFields); x != "" {
 		sb.WriteString("extra " + x + "\n")
 	}
 	if !o.NoTrans {
